@@ -434,10 +434,34 @@ func c15pinned(c *Ctx, p *load.Program) {
 		for _, r := range acceptingReturns(fn) {
 			fs := facts.Atoms(facts.At(r, nil))
 			n := 0
+			why := ""
 			for _, a := range fs {
-				if strings.HasPrefix(a, "64 == len(req.") {
+				// the decoded value itself is pinned to 32 bytes
+				if strings.HasPrefix(a, "32 == len(encoding/hex.DecodeString(") {
 					n++
+					continue
 				}
+				if !strings.HasPrefix(a, "64 == len(req.") {
+					continue
+				}
+				// the string whose length is pinned must be the very string that is decoded:
+				// decoding a trimmed or otherwise transformed copy lets a 64-character request
+				// value decode to fewer than 32 bytes
+				str := strings.TrimSuffix(strings.TrimPrefix(a, "64 == len("), ")")
+				decoded := false
+				for _, b := range fs {
+					if strings.HasPrefix(b, "encoding/hex.DecodeString("+str+")") && strings.HasSuffix(b, "#1 == nil") {
+						decoded = true
+					}
+				}
+				if decoded {
+					n++
+				} else {
+					why += "length of " + str + " is pinned to 64 characters but the value decoded is not hex.DecodeString(" + str + "): a transformed string (prefix stripped, trimmed) decodes to a different width; "
+				}
+			}
+			if why != "" {
+				fs = append([]string{why}, fs...)
 			}
 			R.Check("C15.layout", R.Key("C15.layout", k.Converter, "pinned-widths"), c.rel(p.Pos(instrPos(r))), fmt.Sprintf("%s accepts only 64-hex-character (32-byte) values for its %d fixed-width fields", k.Converter, len(k.Pinned)), n == len(k.Pinned), strings.Join(fs, ";"))
 		}
